@@ -247,34 +247,35 @@ func (s *ChattyStrategy) broadcastUpdatesOnly(ctx context.Context, prev, cur tmc
 	// Compare the count of set bits in the signature bitsets
 	// to determine if we need to broadcast updates for those.
 
-	prevPrevoteBitset := bitset.New(0)
+	// Count signatures per vote target, not distinct signers across targets:
+	// the views only grow, so the per-target total increases with every new signature,
+	// including a second signature by the same validator for a different target.
 	var bs bitset.BitSet
+	var prevPrevoteCount, curPrevoteCount uint
 	for _, p := range prev.PrevoteProofs {
 		p.SignatureBitSet(&bs)
-		prevPrevoteBitset.InPlaceUnion(&bs)
+		prevPrevoteCount += bs.Count()
 	}
-	curPrevoteBitset := bitset.New(0)
 	for _, p := range cur.PrevoteProofs {
 		p.SignatureBitSet(&bs)
-		curPrevoteBitset.InPlaceUnion(&bs)
+		curPrevoteCount += bs.Count()
 	}
-	if curPrevoteBitset.Count() != prevPrevoteBitset.Count() {
+	if curPrevoteCount != prevPrevoteCount {
 		if !s.broadcastPrevotes(ctx, cur) {
 			return false
 		}
 	}
 
-	prevPrecommitBitset := bitset.New(0)
+	var prevPrecommitCount, curPrecommitCount uint
 	for _, p := range prev.PrecommitProofs {
 		p.SignatureBitSet(&bs)
-		prevPrecommitBitset.InPlaceUnion(&bs)
+		prevPrecommitCount += bs.Count()
 	}
-	curPrecommitBitset := bitset.New(0)
 	for _, p := range cur.PrecommitProofs {
 		p.SignatureBitSet(&bs)
-		curPrecommitBitset.InPlaceUnion(&bs)
+		curPrecommitCount += bs.Count()
 	}
-	if curPrecommitBitset.Count() != prevPrecommitBitset.Count() {
+	if curPrecommitCount != prevPrecommitCount {
 		if !s.broadcastPrecommits(ctx, cur) {
 			return false
 		}
